@@ -30,6 +30,16 @@ CLAIMS["C13"] = dict(
    text="Decides the code-shape part of 'never panics, never prints a result on failure': every reachable panic-capable construct (Assert terminators, unwrap/expect, explicit panics, byte/usize indexing, truncate, run-time fmt width, chrono Display) is discharged by a machine-checked argument on the current MIR or reported with its call path; stdout is touched only in run(); each write in run_with_args is dominated by the success edge of the pipeline whose payload it prints; the error arm prints to stderr and exits non-zero; tracing writes to stderr; every git invocation result is propagated or handled. This covers all argument vectors and all git failure points at once (the git layer is never executed by the offline suite). Panics inside dependencies and allocation failure are not decided.",
    note="Trusted: rustc MIR/trait resolution, zfacts, the recogniser library (rules/panics.py) and the 12-entry audited table whose structural requires are re-checked each run. Assumes dependencies honour their documented panic contracts.",
    ref="4/C13")
+CLAIMS["C16"] = dict(
+   technique="MIR guard-set and ordering rules on utils::sanitize: dominating character-class predicates, char_indices cut points, phase-order reachability, path-enumerated guard table for the integer sanitiser",
+   text="Decides, for every input string and sanitiser setting, the structural clauses of the contract: only characters dominated by an ASCII-alphanumeric predicate (plus the separator/constants) are appended; every cut is on a character boundary and counts characters; phases run lowercase < replace < truncate < strip-zeros < trim on every path so each invariant is re-established after the last phase that can break it; the integer sanitiser returns non-empty only under all(is_ascii_digit) && !is_empty; zero stripping tests ASCII digits. Idempotence and maximal-run structure are value laws and are not decided.",
+   note="Trusted: rustc MIR, zfacts, rules/san.py. Assumes std char predicates and char_indices have their documented meaning.",
+   ref="4/C16")
+CLAIMS["C01"] = dict(
+   technique="must-pass-through (origin tracing) and who-may-read rules over the MIR of the resolvers and From<Zerv> impls, dominating-guard rules for identifier pushes, sanitiser character-class rule",
+   text="Decides necessary conditions of well-formed output on all paths and for all 19 variable kinds x every schema position: every string the resolvers can return is a Sanitizer::sanitize result with the renderer's sanitizer; free-text fields are read only inside those resolvers on the rendering path; empty identifiers are never pushed; the sanitiser admits ASCII alphanumerics only. It does not decide that zerv's parser re-accepts the string or that re-rendering is the identity (value laws).",
+   note="Trusted: rustc MIR, zfacts, rules/c01.py. Separator/Display agreement is decided under C08/C09.",
+   ref="4/C01")
 REASONS = {}
 
 def main():
